@@ -73,6 +73,157 @@ Definition scan_with (rc : cb -> NM unit) (snapshot : nat) : nat -> nat -> NM un
         end
     end.
 
+(* ---- the generator (run-time generation for parallel loops uses it) ---- *)
+Section GenBodies.
+  Variable tasks : list task.
+
+  Definition gen_go (gs : nat -> name -> list nat -> stmt -> nat -> nat -> bool -> NM (list nat))
+             (n : nat) (ctx : nat) (tn : name) (pre : list nat) (first last : nat) (in_loop : bool)
+    : nat -> list stmt -> nat -> list nat -> NM (list nat) :=
+    fix go (i : nat) (l : list stmt) (prev : nat) (acc : list nat) : NM (list nat) :=
+      match l with
+      | [] => nret acc
+      | s :: r =>
+        cur <~ (if Nat.ltb 1 n
+                then (if Nat.ltb i (n - 1) then create_transition else nret last)
+                else nret last) ;;
+        let prev' := if Nat.ltb 1 n then prev else first in
+        ex <~ gs ctx tn (pre ++ [i]) s prev' cur in_loop ;;
+        go (S i) r cur ex
+      end.
+
+  Theorem generate_statements_S : forall f ctx tn pre ss first last in_loop s,
+      generate_statements tasks (S f) ctx tn pre ss first last in_loop s =
+      gen_go (generate_stmt tasks f) (List.length ss) ctx tn pre first last in_loop 0 ss first [] s.
+  Proof. intros. reflexivity. Qed.
+
+  Definition gen_calls (gtc : call -> site -> nat -> nat -> nat -> bool -> NM (list nat))
+             (ctx : nat) (tn : name) (path : list nat) (t1 sync : nat) (in_loop : bool)
+    : nat -> list call -> NM unit :=
+    fix calls (i : nat) (l : list call) : NM unit :=
+      match l with
+      | [] => nret tt
+      | c :: r => gtc c (site_of tn (path ++ [i])) ctx t1 sync in_loop ;;~ calls (S i) r
+      end.
+
+  Definition gstmt_body
+             (gss : nat -> name -> list nat -> list stmt -> nat -> nat -> bool -> NM (list nat))
+             (gtc : call -> site -> nat -> nat -> nat -> bool -> NM (list nat))
+             (ctx : nat) (tn : name) (path : list nat) (s : stmt) (t1 t2 : nat) (in_loop : bool)
+    : NM (list nat) :=
+    match s with
+    | SService n ins _ => generate_service n ins (site_of tn path) ctx t1 t2 in_loop
+    | SCall c => gtc c (site_of tn path) ctx t1 t2 in_loop
+    | SParallel cs =>
+      sync <~ create_transition ;;
+      pfin <~ create_place ;;
+      gen_calls gtc ctx tn path t1 sync in_loop 0 cs ;;~
+      add_output pfin sync ;;~
+      add_input pfin t2 ;;~
+      nret [sync]
+    | SCond e p fl =>
+      passed <~ create_place ;;
+      failed <~ create_place ;;
+      expr_p <~ create_place ;;
+      fp <~ create_transition ;;
+      ff <~ create_transition ;;
+      add_input expr_p fp ;;~
+      add_input expr_p ff ;;~
+      add_input passed fp ;;~
+      add_input failed ff ;;~
+      cfin <~ create_place ;;
+      sp <~ create_transition ;;
+      add_output cfin sp ;;~
+      gss ctx tn (path ++ [0]) p fp sp in_loop ;;~
+      add_output expr_p t1 ;;~
+      add_input cfin t2 ;;~
+      add_callback t1 (CbCond e passed failed ctx) ;;~
+      match fl with
+      | [] => add_output cfin ff ;;~ nret [sp; ff]
+      | _ :: _ =>
+        sf <~ create_transition ;;
+        gss ctx tn (path ++ [1]) fl ff sf in_loop ;;~
+        add_output cfin sf ;;~
+        nret [sp; sf]
+      end
+    | SCount true v lim body =>
+      match body with
+      | SCall c :: _ =>
+        ph <~ create_place ;;
+        add_output ph t1 ;;~
+        add_input ph t2 ;;~
+        add_callback t1 (CbParLoop v lim ctx c (site_of tn (path ++ [0])) ph t1 t2) ;;~
+        nret [t2]
+      | _ => nfail Unsupported
+      end
+    | SCount false v lim body =>
+      loop_p <~ create_place ;;
+      then_p <~ create_place ;;
+      else_p <~ create_place ;;
+      cp <~ create_transition ;;
+      cf <~ create_transition ;;
+      it <~ create_transition ;;
+      add_input loop_p cp ;;~
+      add_input then_p cp ;;~
+      add_input loop_p cf ;;~
+      add_input else_p cf ;;~
+      add_output loop_p it ;;~
+      ldone <~ create_place ;;
+      gss ctx tn path body cp it true ;;~
+      add_output ldone cf ;;~
+      add_output loop_p t1 ;;~
+      add_input ldone t2 ;;~
+      add_callback t1 (CbCount (site_of tn path) lim then_p else_p ctx) ;;~
+      add_callback it (CbCount (site_of tn path) lim then_p else_p ctx) ;;~
+      nret [cf]
+    | SWhile e body =>
+      loop_p <~ create_place ;;
+      then_p <~ create_place ;;
+      else_p <~ create_place ;;
+      cp <~ create_transition ;;
+      cf <~ create_transition ;;
+      it <~ create_transition ;;
+      add_input loop_p cp ;;~
+      add_input then_p cp ;;~
+      add_input loop_p cf ;;~
+      add_input else_p cf ;;~
+      add_output loop_p it ;;~
+      ldone <~ create_place ;;
+      gss ctx tn path body cp it true ;;~
+      add_output loop_p t1 ;;~
+      add_input ldone t2 ;;~
+      add_callback t1 (CbWhile e then_p else_p ctx) ;;~
+      add_callback it (CbWhile e then_p else_p ctx) ;;~
+      add_output ldone cf ;;~
+      nret [cf]
+    end.
+
+  Theorem generate_stmt_S : forall f ctx tn path s t1 t2 in_loop st,
+      generate_stmt tasks (S f) ctx tn path s t1 t2 in_loop st =
+      gstmt_body (generate_statements tasks f) (generate_task_call tasks f) ctx tn path s t1 t2 in_loop st.
+  Proof. intros. destruct s; reflexivity. Qed.
+
+  Definition gtc_body
+             (gss : nat -> name -> list nat -> list stmt -> nat -> nat -> bool -> NM (list nat))
+             (c : call) (at_ : site) (ctx : nat) (t1 t2 : nat) (in_loop : bool) : NM (list nat) :=
+    match find_task (c_name c) tasks with
+    | None => nfail (Exn KeyError)
+    | Some t =>
+      u <~ fresh_uuid ;;
+      a <~ new_api {| a_is_task := true; a_name := c_name c; a_site := at_; a_uuid := u; a_ctx := Some ctx;
+                      a_in_loop := in_loop; a_params := c_ins c; a_src := c_ins c; a_has_call := true |} ;;
+      add_callback t1 (CbTS a) ;;~
+      ex <~ gss a (t_name t) [] (t_body t) t1 t2 in_loop ;;
+      nfor ex (fun e => add_callback e (CbTF a)) ;;~
+      nret ex
+    end.
+
+  Theorem generate_task_call_S : forall f c at_ ctx t1 t2 in_loop st,
+      generate_task_call tasks (S f) c at_ ctx t1 t2 in_loop st =
+      gtc_body (generate_statements tasks f) c at_ ctx t1 t2 in_loop st.
+  Proof. intros. reflexivity. Qed.
+End GenBodies.
+
 Section Bodies.
   Variable tasks : list task.
   Variable env : envcfg.
@@ -374,3 +525,815 @@ Section Bodies.
       scan_with (run_cb tasks env f) (List.length (ns_trans s0)) f 0 s0.
   Proof. intros. reflexivity. Qed.
 End Bodies.
+
+(* =========================================================================== *)
+(* 2. the net only grows: a frame relation preserved by every function           *)
+(* =========================================================================== *)
+
+(* no transition, place, API object or callback table entry ever disappears; the callback
+   table stays aligned with the transition list *)
+Definition le_ns (s s' : NS) : Prop :=
+  List.length (ns_trans s) <= List.length (ns_trans s') /\
+  List.length (ns_places s) <= List.length (ns_places s') /\
+  List.length (ns_apis s) <= List.length (ns_apis s') /\
+  List.length (ns_cbs s) <= List.length (ns_cbs s') /\
+  (List.length (ns_cbs s) = List.length (ns_trans s) ->
+   List.length (ns_cbs s') = List.length (ns_trans s')).
+
+Lemma le_ns_refl : forall s, le_ns s s.
+Proof. intro s. unfold le_ns. repeat split; auto. Qed.
+
+Lemma le_ns_trans : forall a b c, le_ns a b -> le_ns b c -> le_ns a c.
+Proof. unfold le_ns. intros a b c H1 H2. intuition lia. Qed.
+
+Definition pres {A} (m : NM A) : Prop := forall s a s', m s = Ok (a, s') -> le_ns s s'.
+
+Lemma nbind_inv : forall A B (m : NM A) (k : A -> NM B) s b s',
+    nbind m k s = Ok (b, s') -> exists a s1, m s = Ok (a, s1) /\ k a s1 = Ok (b, s').
+Proof.
+  intros A B m k s b s' H. unfold nbind in H.
+  destruct (m s) as [[a s1]| | |]; try discriminate. eauto.
+Qed.
+
+Lemma pres_ext : forall A (m m' : NM A), (forall s, m s = m' s) -> pres m' -> pres m.
+Proof. intros A m m' E H s a s' H1. rewrite E in H1. eauto. Qed.
+
+Lemma pres_ret : forall A (a : A), pres (nret a).
+Proof. intros A a s a' s' H. inversion H. apply le_ns_refl. Qed.
+
+Lemma pres_get : pres nget.
+Proof. intros s a s' H. inversion H. apply le_ns_refl. Qed.
+
+Lemma pres_fail : forall A (r : res A), pres (nfail r).
+Proof. intros A r s a s' H. unfold nfail in H. destruct r; inversion H. apply le_ns_refl. Qed.
+
+Lemma pres_bind : forall A B (m : NM A) (k : A -> NM B),
+    pres m -> (forall a, pres (k a)) -> pres (nbind m k).
+Proof.
+  intros A B m k Hm Hk s b s' H. apply nbind_inv in H. destruct H as (a & s1 & H1 & H2).
+  eapply le_ns_trans; [eapply Hm|eapply Hk]; eauto.
+Qed.
+
+Lemma pres_mod : forall f, (forall s, le_ns s (f s)) -> pres (nmod f).
+Proof. intros f Hf s a s' H. inversion H. apply Hf. Qed.
+
+Lemma pres_nfor : forall A (l : list A) f, (forall x, pres (f x)) -> pres (nfor l f).
+Proof.
+  intros A l f Hf. induction l as [|x l IH]; cbn [nfor].
+  - apply pres_ret.
+  - apply pres_bind; auto.
+Qed.
+
+Lemma upd_length : forall A n (f : A -> A) l, List.length (upd n f l) = List.length l.
+Proof. intros A n f l. revert n. induction l as [|x l IH]; intros [|n]; cbn; auto. Qed.
+
+Lemma fold_upd_length : forall A (g : A -> A) ps l,
+    List.length (fold_left (fun ps p => upd p g ps) l ps) = List.length ps.
+Proof.
+  intros A g ps l. revert ps. induction l as [|p l IH]; intro ps; cbn; auto.
+  rewrite IH. apply upd_length.
+Qed.
+
+Ltac le_ns_solve :=
+  unfold le_ns; cbn;
+  rewrite ?fold_upd_length, ?upd_length, ?map_length, ?app_length; cbn; repeat split; lia.
+
+Ltac pres_step :=
+  match goal with
+  | |- pres (nbind _ _) => apply pres_bind; [| intro]
+  | |- pres (nret _) => apply pres_ret
+  | |- pres nget => apply pres_get
+  | |- pres (nfail _) => apply pres_fail
+  | |- pres (nfor _ _) => apply pres_nfor; intro
+  | |- pres (nmod _) => apply pres_mod; intro; le_ns_solve
+  | |- pres (if ?b then _ else _) => destruct b
+  | |- pres (match ?x with _ => _ end) => destruct x
+  | |- pres _ => solve [auto with pres]
+  end.
+Ltac pres_tac := cbv zeta; repeat pres_step.
+
+Lemma pres_create_place : pres create_place.
+Proof. intros s a s' H. inversion H. le_ns_solve. Qed.
+Lemma pres_create_transition : pres create_transition.
+Proof. intros s a s' H. inversion H. le_ns_solve. Qed.
+Lemma pres_add_input : forall p t, pres (add_input p t).
+Proof. intros. unfold add_input. pres_tac. Qed.
+Lemma pres_add_output : forall p t, pres (add_output p t).
+Proof. intros. unfold add_output. pres_tac. Qed.
+Lemma pres_add_callback : forall t c, pres (add_callback t c).
+Proof. intros. unfold add_callback. pres_tac. Qed.
+Lemma pres_place_add : forall p, pres (place_add p).
+Proof. intros. unfold place_add. pres_tac. Qed.
+Lemma pres_fire_trans : forall t, pres (fire_trans t).
+Proof. intros. unfold fire_trans. pres_tac. Qed.
+Lemma pres_remove_place : forall p, pres (remove_place p).
+Proof. intros. unfold remove_place. pres_tac. Qed.
+Lemma pres_fresh_uuid : pres fresh_uuid.
+Proof. intros s a s' H. inversion H. le_ns_solve. Qed.
+Lemma pres_new_api : forall a, pres (new_api a).
+Proof. intros a0 s a s' H. inversion H. le_ns_solve. Qed.
+Lemma pres_get_api : forall i, pres (get_api i).
+Proof.
+  intros i s a s' H. unfold get_api in H. destruct (nth_error (ns_apis s) i); inversion H.
+  apply le_ns_refl.
+Qed.
+Lemma pres_set_api : forall i f, pres (set_api i f).
+Proof. intros. unfold set_api. pres_tac. Qed.
+Lemma pres_nlog : forall es, pres (nlog es).
+Proof. intros. unfold nlog. pres_tac. Qed.
+Lemma pres_pop_cb : forall i, pres (pop_cb i).
+Proof. intros. unfold pop_cb. pres_tac. Qed.
+#[local] Hint Resolve pres_create_place pres_create_transition pres_add_input pres_add_output
+  pres_add_callback pres_place_add pres_fire_trans pres_remove_place pres_fresh_uuid pres_new_api
+  pres_get_api pres_set_api pres_nlog pres_pop_cb : pres.
+
+Lemma pres_generate_service : forall n ins at_ ctx t1 t2 il,
+    pres (generate_service n ins at_ ctx t1 t2 il).
+Proof. intros. unfold generate_service. pres_tac. Qed.
+Lemma pres_generate_empty_parallel_loop : forall t1 t2, pres (generate_empty_parallel_loop t1 t2).
+Proof. intros. unfold generate_empty_parallel_loop. pres_tac. Qed.
+#[local] Hint Resolve pres_generate_service pres_generate_empty_parallel_loop : pres.
+
+Section GenPres.
+  Variable tasks : list task.
+
+  Lemma pres_gen_go : forall gs n ctx tn pre first last il,
+      (forall ctx tn path s t1 t2 il, pres (gs ctx tn path s t1 t2 il)) ->
+      forall l i prev acc, pres (gen_go gs n ctx tn pre first last il i l prev acc).
+  Proof.
+    intros gs n ctx tn pre first last il Hgs. induction l as [|s r IH]; intros i prev acc.
+    - cbn [gen_go]. pres_tac.
+    - cbn [gen_go]. fold (gen_go gs n ctx tn pre first last il). pres_tac.
+  Qed.
+
+  Lemma pres_gen_calls : forall gtc ctx tn path t1 sync il,
+      (forall c at_ ctx t1 t2 il, pres (gtc c at_ ctx t1 t2 il)) ->
+      forall l i, pres (gen_calls gtc ctx tn path t1 sync il i l).
+  Proof.
+    intros gtc ctx tn path t1 sync il Hg. induction l as [|c r IH]; intro i.
+    - cbn [gen_calls]. pres_tac.
+    - cbn [gen_calls]. fold (gen_calls gtc ctx tn path t1 sync il). pres_tac.
+  Qed.
+  Hint Resolve pres_gen_go pres_gen_calls : pres.
+
+  Lemma pres_gstmt_body : forall gss gtc,
+      (forall ctx tn pre ss first last il, pres (gss ctx tn pre ss first last il)) ->
+      (forall c at_ ctx t1 t2 il, pres (gtc c at_ ctx t1 t2 il)) ->
+      forall ctx tn path s t1 t2 il, pres (gstmt_body gss gtc ctx tn path s t1 t2 il).
+  Proof.
+    intros gss gtc H1 H2 ctx tn path s t1 t2 il. unfold gstmt_body. pres_tac.
+  Qed.
+
+  Lemma pres_gtc_body : forall gss,
+      (forall ctx tn pre ss first last il, pres (gss ctx tn pre ss first last il)) ->
+      forall c at_ ctx t1 t2 il, pres (gtc_body tasks gss c at_ ctx t1 t2 il).
+  Proof. intros gss H1 c at_ ctx t1 t2 il. unfold gtc_body. pres_tac. Qed.
+
+  Theorem pres_generate : forall f,
+      (forall ctx tn pre ss first last il, pres (generate_statements tasks f ctx tn pre ss first last il)) /\
+      (forall ctx tn path s t1 t2 il, pres (generate_stmt tasks f ctx tn path s t1 t2 il)) /\
+      (forall c at_ ctx t1 t2 il, pres (generate_task_call tasks f c at_ ctx t1 t2 il)).
+  Proof.
+    induction f as [|f (IH1 & IH2 & IH3)].
+    - split; [|split]; intros; intros ? ? ? HH; discriminate HH.
+    - split; [|split]; intros.
+      + eapply pres_ext; [intro; apply generate_statements_S|]. apply pres_gen_go. exact IH2.
+      + eapply pres_ext; [intro; apply generate_stmt_S|]. apply pres_gstmt_body; assumption.
+      + eapply pres_ext; [intro; apply generate_task_call_S|]. apply pres_gtc_body; assumption.
+  Qed.
+End GenPres.
+
+Section SchedPres.
+  Variable tasks : list task.
+  Variable env : envcfg.
+
+  Lemma pres_new_test_or_uuid : forall b, pres (new_test_or_uuid b).
+  Proof. intro b. unfold new_test_or_uuid. pres_tac. Qed.
+  Lemma pres_set_counters : forall u d, pres (set_counters u d).
+  Proof. intros. unfold set_counters. pres_tac. Qed.
+  Hint Resolve pres_new_test_or_uuid pres_set_counters : pres.
+  Lemma pres_substitute_loop_indexes : forall ai, pres (substitute_loop_indexes tasks ai).
+  Proof. intro ai. unfold substitute_loop_indexes. pres_tac. Qed.
+  Lemma pres_get_loop_limit : forall lim ctx, pres (get_loop_limit env lim ctx).
+  Proof. intros. unfold get_loop_limit. pres_tac. Qed.
+  Lemma pres_check_expression : forall e ctx, pres (check_expression env e ctx).
+  Proof. intros. unfold check_expression. pres_tac. Qed.
+  Hint Resolve pres_substitute_loop_indexes pres_get_loop_limit pres_check_expression : pres.
+
+  Lemma pres_parloop_generate : forall v lim ctx c csite ph t1 t2,
+      pres (parloop_generate tasks env v lim ctx c csite ph t1 t2).
+  Proof.
+    intros. unfold parloop_generate.
+    pose proof (proj2 (proj2 (pres_generate tasks 200))) as Hg.
+    pres_tac.
+  Qed.
+  Hint Resolve pres_parloop_generate : pres.
+
+  Lemma pres_each_with : forall rc index, (forall c, pres (rc c)) ->
+      forall h i, pres (each_with rc index h i).
+  Proof.
+    intros rc index Hrc. induction h as [|h IH]; intro i.
+    - cbn [each_with]. pres_tac.
+    - cbn [each_with]. fold (each_with rc index). pres_tac.
+  Qed.
+  Hint Resolve pres_each_with : pres.
+
+  Lemma pres_scan_with : forall rc snap, (forall c, pres (rc c)) ->
+      forall g index, pres (scan_with rc snap g index).
+  Proof.
+    intros rc snap Hrc. induction g as [|g IH]; intro index.
+    - cbn [scan_with]. pres_tac.
+    - cbn [scan_with]. fold (scan_with rc snap). pres_tac.
+  Qed.
+
+  Lemma pres_run_cb_body : forall ev_ ots otf oss osf sfe,
+      pres ev_ -> (forall a, pres (ots a)) -> (forall a, pres (otf a)) ->
+      (forall a, pres (oss a)) -> (forall a, pres (osf a)) -> (forall e, pres (sfe e)) ->
+      forall c, pres (run_cb_body tasks env ev_ ots otf oss osf sfe c).
+  Proof.
+    intros ev_ ots otf oss osf sfe H1 H2 H3 H4 H5 H6 c. unfold run_cb_body, await_and_fire.
+    destruct c; try solve [pres_tac].
+    apply pres_ext with (m' := parloop_generate tasks env v lim ctx c csite ph t1 t2 ;;~ ev_);
+      [intro; apply parloop_then_eq|]. pres_tac.
+  Qed.
+
+  Lemma pres_ots_body : forall nu, (forall k a b, pres (nu k a b)) -> forall ai, pres (ots_body tasks nu ai).
+  Proof. intros nu H ai. unfold ots_body. pres_tac. Qed.
+  Lemma pres_oss_body : forall nu, (forall k a b, pres (nu k a b)) -> forall ai, pres (oss_body tasks nu ai).
+  Proof. intros nu H ai. unfold oss_body, rebind_uuid. pres_tac. Qed.
+  Lemma pres_otf_body : forall nu, (forall k a b, pres (nu k a b)) -> forall ai, pres (otf_body nu ai).
+  Proof. intros nu H ai. unfold otf_body. pres_tac. Qed.
+
+  Lemma pres_notify_each : forall er k ai, (forall k a, pres (er k a)) ->
+      forall h i, pres (notify_each er k ai h i).
+  Proof.
+    intros er k ai Her. induction h as [|h IH]; intro i.
+    - cbn [notify_each]. pres_tac.
+    - cbn [notify_each]. fold (notify_each er k ai). pres_tac.
+  Qed.
+  Hint Resolve pres_notify_each : pres.
+  Lemma pres_nu_body : forall er, (forall k a, pres (er k a)) -> forall k ai b, pres (nu_body er k ai b).
+  Proof. intros er H k ai b. unfold nu_body. pres_tac. Qed.
+  Lemma pres_er_body : forall sfe, (forall e, pres (sfe e)) -> forall k ai, pres (er_body env sfe k ai).
+  Proof. intros sfe H k ai. unfold er_body. pres_tac. Qed.
+  Lemma pres_sfe_body : forall lfe, (forall e, pres (lfe e)) -> forall ev, pres (sfe_body lfe ev).
+  Proof. intros lfe H ev. unfold sfe_body. pres_tac. Qed.
+  Lemma pres_lfe_body : forall ev_, pres ev_ -> forall ev, pres (lfe_body ev_ ev).
+  Proof. intros ev_ H ev. unfold lfe_body. pres_tac. Qed.
+
+  (* every function of the mutual block only lets the net grow *)
+  Theorem pres_block : forall f,
+      pres (evaluate tasks env f) /\
+      (forall c, pres (run_cb tasks env f c)) /\
+      (forall a, pres (on_task_started tasks env f a)) /\
+      (forall a, pres (on_service_started tasks env f a)) /\
+      (forall a, pres (on_service_finished tasks env f a)) /\
+      (forall a, pres (on_task_finished tasks env f a)) /\
+      (forall k a b, pres (notify_user tasks env f k a b)) /\
+      (forall k a, pres (engine_reacts tasks env f k a)) /\
+      (forall ev, pres (sched_fire_event tasks env f ev)) /\
+      (forall ev, pres (logic_fire_event tasks env f ev)).
+  Proof.
+    induction f as [|f (I1 & I2 & I3 & I4 & I5 & I6 & I7 & I8 & I9 & I10)].
+    - repeat (split; [intros; intros ? ? ? HH; discriminate HH|]). intros; intros ? ? ? HH; discriminate HH.
+    - split; [|split; [|split; [|split; [|split; [|split; [|split; [|split; [|split]]]]]]]]; intros.
+      + intros s a s' HH. rewrite evaluate_S in HH. eapply pres_scan_with; eauto.
+      + eapply pres_ext; [intro; apply run_cb_S|]. apply pres_run_cb_body; assumption.
+      + eapply pres_ext; [intro; apply on_task_started_S|]. apply pres_ots_body; assumption.
+      + eapply pres_ext; [intro; apply on_service_started_S|]. apply pres_oss_body; assumption.
+      + eapply pres_ext; [intro; apply on_service_finished_S|]. apply I7.
+      + eapply pres_ext; [intro; apply on_task_finished_S|]. apply pres_otf_body; assumption.
+      + eapply pres_ext; [intro; apply notify_user_S|]. apply pres_nu_body; assumption.
+      + eapply pres_ext; [intro; apply engine_reacts_S|]. apply pres_er_body; assumption.
+      + eapply pres_ext; [intro; apply sched_fire_event_S'|]. apply pres_sfe_body; assumption.
+      + eapply pres_ext; [intro; apply logic_fire_event_S|]. apply pres_lfe_body; assumption.
+  Qed.
+End SchedPres.
+
+(* =========================================================================== *)
+(* 3. the scan: a pass that ends normally leaves every scanned transition disabled *)
+(* =========================================================================== *)
+
+Definition disabled_below (n : nat) (s : NS) : Prop :=
+  forall i t, i < n -> nth_error (ns_trans s) i = Some t -> enabled s t = false.
+
+(* nothing is enabled: without a further event the net cannot move *)
+Definition quiescent (s : NS) : Prop :=
+  forall t, In t (ns_trans s) -> enabled s t = false.
+
+Lemma disabled_below_all : forall s n,
+    List.length (ns_trans s) <= n -> disabled_below n s -> quiescent s.
+Proof.
+  intros s n Hn H t Ht. apply In_nth_error in Ht. destruct Ht as [i Hi].
+  apply (H i t); [|exact Hi].
+  assert (i < List.length (ns_trans s)) by (apply nth_error_Some; congruence). lia.
+Qed.
+
+Lemma quiescent_disabled_below : forall s n, quiescent s -> disabled_below n s.
+Proof. intros s n H i t _ Hi. apply H. eapply nth_error_In; eauto. Qed.
+
+Lemma disabled_below_le : forall s n m, m <= n -> disabled_below n s -> disabled_below m s.
+Proof. intros s n m Hle H i t Hi. apply H. lia. Qed.
+
+Lemma find_pl_parloop : forall h i l temp r l',
+    find_pl h i l temp = (r, l') ->
+    (forall c, temp = Some c -> is_parloop_cb c = true) ->
+    forall c, r = Some c -> is_parloop_cb c = true.
+Proof.
+  induction h as [|h IH]; intros i l temp r l' H Ht c Hc; cbn [find_pl] in H.
+  - inversion H; subst. auto.
+  - destruct (nth_error l i) as [c0|] eqn:E.
+    + destruct (is_parloop_cb c0) eqn:Ep.
+      * eapply IH; [exact H| |exact Hc]. intros c1 H1. inversion H1; subst. exact Ep.
+      * eapply IH; [exact H|exact Ht|exact Hc].
+    + inversion H; subst. auto.
+Qed.
+
+Section ScanCore.
+  Variable rc : cb -> NM unit.
+  Variable snap : nat.
+  (* any preorder on states that the callbacks and the scan's own updates respect *)
+  Variable Rel : NS -> NS -> Prop.
+  Variable Rel_refl : forall s, Rel s s.
+  Variable Rel_trans : forall a b c, Rel a b -> Rel b c -> Rel a c.
+  Variable Rel_rc : forall c s u s', rc c s = Ok (u, s') -> Rel s s'.
+  Variable Rel_cbs : forall s index f, Rel s (s <| ns_cbs := upd index f (ns_cbs s) |>).
+  Variable Rel_fire : forall t s u s', fire_trans t s = Ok (u, s') -> Rel s s'.
+
+  Lemma each_with_rel : forall index h i s u s',
+      each_with rc index h i s = Ok (u, s') -> Rel s s'.
+  Proof.
+    intros index. induction h as [|h IH]; intros i s u s' H; cbn [each_with] in H.
+    - discriminate H.
+    - fold (each_with rc index) in H. unfold nbind at 1, nget in H.
+      destruct (nth_error (nth index (ns_cbs s) []) i) as [c|].
+      + apply nbind_inv in H. destruct H as (u1 & s1 & H1 & H2).
+        eapply Rel_trans; [eapply Rel_rc; eauto|eapply IH; eauto].
+      + inversion H; subst. apply Rel_refl.
+  Qed.
+
+  Lemma nfor_pop_rel : forall index l s u s',
+      nfor l (fun c => rc c ;;~ pop_cb index) s = Ok (u, s') -> Rel s s'.
+  Proof.
+    intros index. induction l as [|c l IH]; intros s u s' H; cbn [nfor] in H.
+    - inversion H; subst. apply Rel_refl.
+    - apply nbind_inv in H. destruct H as (u1 & s1 & H1 & H2).
+      apply nbind_inv in H1. destruct H1 as (u2 & s2 & H3 & H4).
+      inversion H4; subst.
+      eapply Rel_trans; [eapply Rel_rc; eauto|].
+      eapply Rel_trans; [apply Rel_cbs|]. eapply IH; eauto.
+  Qed.
+
+  (* how a scan can end: normally (everything below the snapshot is disabled in the final
+     state), or in the parallel-loop exit (the final state is the final state of the
+     parallel-loop callback, run from a state reachable from the scan's start) *)
+  Definition parloop_exit (s s' : NS) : Prop :=
+    exists pl s1 u, is_parloop_cb pl = true /\ Rel s s1 /\ rc pl s1 = Ok (u, s').
+
+  Theorem scan_with_exits : forall g index s u s',
+      scan_with rc snap g index s = Ok (u, s') ->
+      disabled_below index s ->
+      disabled_below snap s' \/ parloop_exit s s'.
+  Proof.
+    induction g as [|g IH]; intros index s u s' H Hdis; cbn [scan_with] in H.
+    - discriminate H.
+    - fold (scan_with rc snap) in H.
+      destruct (Nat.leb snap index) eqn:Hle.
+      + (* the pass is complete *)
+        inversion H; subst. left. apply Nat.leb_le in Hle.
+        eapply disabled_below_le; eauto.
+      + unfold nbind at 1, nget in H.
+        destruct (nth_error (ns_trans s) index) as [t|] eqn:Hnth.
+        * destruct (enabled s t) eqn:Hen.
+          -- cbv zeta in H.
+             destruct (find_pl (S (List.length (nth index (ns_cbs s) []))) 0
+                               (nth index (ns_cbs s) []) None) as [temp cbs1] eqn:Hfind.
+             destruct temp as [pl|].
+             ++ (* parallel-loop exit *)
+                right.
+                apply nbind_inv in H. destruct H as (u1 & s1 & H1 & H).
+                apply nbind_inv in H. destruct H as (u2 & s2 & H2 & H).
+                exists pl, s2, u. split; [|split].
+                ** eapply find_pl_parloop; [exact Hfind| |reflexivity]. intros c Hc; discriminate Hc.
+                ** inversion H1; subst. eapply Rel_trans; [apply Rel_cbs|].
+                   eapply nfor_pop_rel; eauto.
+                ** exact H.
+             ++ (* fire, run the callbacks, restart the scan *)
+                apply nbind_inv in H. destruct H as (u1 & s1 & H1 & H).
+                apply nbind_inv in H. destruct H as (u2 & s2 & H2 & H).
+                assert (R02 : Rel s s2).
+                { eapply Rel_trans; [eapply Rel_fire; eauto|eapply each_with_rel; eauto]. }
+                destruct (IH 0 s2 u s' H) as [Hn|(pl & s3 & u3 & Hp & Hr & He)].
+                ** intros i t' Hi; inversion Hi.
+                ** left; exact Hn.
+                ** right. exists pl, s3, u3. split; [exact Hp|split; [|exact He]].
+                   eapply Rel_trans; eauto.
+          -- (* not enabled: next index, same state *)
+             apply (IH (S index) s u s' H).
+             intros i t' Hi Hi'.
+             destruct (Nat.eq_dec i index) as [->|Hne].
+             ++ rewrite Hnth in Hi'. inversion Hi'; subst. exact Hen.
+             ++ apply (Hdis i t'); [lia|exact Hi'].
+        * (* the current transition list is shorter than the snapshot *)
+          inversion H; subst. left. intros i t' Hi Hi'.
+          apply (Hdis i t'); [|exact Hi'].
+          apply nth_error_None in Hnth.
+          assert (i < List.length (ns_trans s')) by (apply nth_error_Some; congruence). lia.
+  Qed.
+
+  (* statement 1: started at index 0 *)
+  Corollary scan_quiescent : forall g s u s',
+      scan_with rc snap g 0 s = Ok (u, s') ->
+      disabled_below snap s' \/ parloop_exit s s'.
+  Proof.
+    intros g s u s' H. eapply scan_with_exits; [exact H|]. intros i t Hi; inversion Hi.
+  Qed.
+End ScanCore.
+
+(* statement 1 for an ARBITRARY callback runner: nothing about the rest of the block is used *)
+Theorem scan_with_quiescent : forall rc snap g s u s',
+    scan_with rc snap g 0 s = Ok (u, s') ->
+    disabled_below snap s' \/
+    exists pl s1 u1, is_parloop_cb pl = true /\ rc pl s1 = Ok (u1, s').
+Proof.
+  intros rc snap g s u s' H.
+  destruct (scan_quiescent rc snap (fun _ _ => True)) with (g := g) (s := s) (u := u) (s' := s')
+    as [Hn|(pl & s1 & u1 & Hp & _ & He)]; auto.
+  right. exists pl, s1, u1. auto.
+Qed.
+
+(* a scan that meets no parallel-loop callback can only end normally *)
+Corollary scan_with_quiescent_no_parloop : forall rc snap g s u s',
+    (forall pl s1 u1 s2, is_parloop_cb pl = true -> rc pl s1 <> Ok (u1, s2)) ->
+    scan_with rc snap g 0 s = Ok (u, s') ->
+    disabled_below snap s'.
+Proof.
+  intros rc snap g s u s' Hno H.
+  destruct (scan_with_quiescent _ _ _ _ _ _ H) as [Hn|(pl & s1 & u1 & Hp & He)]; [exact Hn|].
+  exfalso. eapply Hno; eauto.
+Qed.
+
+(* =========================================================================== *)
+(* 4. evaluate_petri_net runs to quiescence                                      *)
+(* =========================================================================== *)
+Section Quiescence.
+  Variable tasks : list task.
+  Variable env : envcfg.
+
+  Lemma le_ns_fire : forall t s u s', fire_trans t s = Ok (u, s') -> le_ns s s'.
+  Proof. intros t s u s' H. eapply pres_fire_trans; eauto. Qed.
+  Lemma le_ns_cbs : forall s index f, le_ns s (s <| ns_cbs := upd index f (ns_cbs s) |>).
+  Proof. intros. le_ns_solve. Qed.
+
+  Lemma pres_run_cb : forall f c s u s', run_cb tasks env f c s = Ok (u, s') -> le_ns s s'.
+  Proof. intros f c s u s' H. eapply (proj1 (proj2 (pres_block tasks env f))); eauto. Qed.
+
+  Lemma pres_evaluate : forall f s u s', evaluate tasks env f s = Ok (u, s') -> le_ns s s'.
+  Proof. intros f s u s' H. eapply (proj1 (pres_block tasks env f)); eauto. Qed.
+
+  (* the two ways [evaluate] returns, one level *)
+  Lemma evaluate_exits : forall f s u s',
+      evaluate tasks env (S f) s = Ok (u, s') ->
+      disabled_below (List.length (ns_trans s)) s' \/
+      exists f' v lim ctx c csite ph t1 t2 s1 u1 s2,
+        f = S f' /\ le_ns s s1 /\
+        parloop_generate tasks env v lim ctx c csite ph t1 t2 s1 = Ok (u1, s2) /\
+        evaluate tasks env f' s2 = Ok (u, s').
+  Proof.
+    intros f s u s' H. rewrite evaluate_S in H.
+    destruct (scan_quiescent (run_cb tasks env f) (List.length (ns_trans s)) le_ns
+                             le_ns_refl le_ns_trans (pres_run_cb f) le_ns_cbs le_ns_fire _ _ _ _ H)
+      as [Hn|(pl & s1 & u1 & Hp & Hr & He)]; [left; exact Hn|right].
+    destruct pl; try discriminate Hp.
+    destruct f as [|f']; [discriminate He|].
+    rewrite run_cb_S in He. cbn [run_cb_body] in He. rewrite parloop_then_eq in He.
+    apply nbind_inv in He. destruct He as (u2 & s2 & H1 & H2).
+    destruct u, u1.
+    exists f', v, lim, ctx, c, csite, ph, t1, t2, s1, u2, s2. auto.
+  Qed.
+
+  (* statement 2: when evaluate_petri_net returns, there is a number n, at least the number
+     of transitions that existed when it was called, such that no transition with index
+     below n is enabled.  (n is the snapshot of the innermost evaluation, the one that made
+     the last complete pass.) *)
+  Theorem evaluate_quiescent : forall f s u s',
+      evaluate tasks env f s = Ok (u, s') ->
+      exists n, List.length (ns_trans s) <= n /\ n <= List.length (ns_trans s') /\
+                disabled_below n s'.
+  Proof.
+    induction f as [f IH] using lt_wf_ind. intros s u s' H.
+    destruct f as [|f]; [discriminate H|].
+    destruct (evaluate_exits _ _ _ _ H)
+      as [Hn|(f' & v & lim & ctx & c & csite & ph & t1 & t2 & s1 & u1 & s2 & -> & L1 & Hg & He)].
+    - exists (List.length (ns_trans s)). split; [lia|split; [|exact Hn]].
+      apply (pres_evaluate _ _ _ _ H).
+    - destruct (IH f' ltac:(lia) _ _ _ He) as (n & N1 & N2 & N3).
+      exists n. split; [|split; assumption].
+      pose proof (pres_parloop_generate tasks env v lim ctx c csite ph t1 t2 _ _ _ Hg) as L2.
+      destruct L1 as (L1 & _). destruct L2 as (L2 & _). lia.
+  Qed.
+
+  (* statement 3: if no transition was created during the evaluation, nothing is enabled *)
+  Theorem evaluate_quiescent_static : forall f s u s',
+      evaluate tasks env f s = Ok (u, s') ->
+      List.length (ns_trans s') = List.length (ns_trans s) ->
+      quiescent s'.
+  Proof.
+    intros f s u s' H Hlen. destruct (evaluate_quiescent _ _ _ _ H) as (n & N1 & N2 & N3).
+    eapply disabled_below_all; [|exact N3]. lia.
+  Qed.
+
+  (* every transition that existed when evaluate was called is disabled when it returns *)
+  Corollary evaluate_old_transitions_disabled : forall f s u s',
+      evaluate tasks env f s = Ok (u, s') ->
+      disabled_below (List.length (ns_trans s)) s'.
+  Proof.
+    intros f s u s' H. destruct (evaluate_quiescent _ _ _ _ H) as (n & N1 & N2 & N3).
+    eapply disabled_below_le; eauto.
+  Qed.
+
+  (* ---- PetriNetLogic.fire_event / Scheduler.fire_event ---- *)
+
+  (* the net proper: marking, transitions with their arcs, callback table *)
+  Definition same_net (s s' : NS) : Prop :=
+    ns_places s' = ns_places s /\ ns_trans s' = ns_trans s /\ ns_cbs s' = ns_cbs s.
+
+  Lemma enabled_places : forall s s' t, ns_places s' = ns_places s -> enabled s' t = enabled s t.
+  Proof. intros s s' t E. unfold enabled, tokens. rewrite E. reflexivity. Qed.
+
+  Lemma same_net_quiescent : forall s s', same_net s s' -> quiescent s -> quiescent s'.
+  Proof.
+    intros s s' (E1 & E2 & _) Hq t Ht. rewrite (enabled_places _ _ _ E1). apply Hq.
+    rewrite <- E2. exact Ht.
+  Qed.
+
+  Lemma same_net_disabled_below : forall n s s', same_net s s' -> disabled_below n s -> disabled_below n s'.
+  Proof.
+    intros n s s' (E1 & E2 & _) Hq i t Hi Ht. rewrite (enabled_places _ _ _ E1). apply (Hq i); [exact Hi|].
+    rewrite <- E2. exact Ht.
+  Qed.
+
+  Definition ran_to_quiescence (s s' : NS) : Prop :=
+    exists n, List.length (ns_trans s) <= n /\ n <= List.length (ns_trans s') /\ disabled_below n s'.
+
+  Lemma ran_to_quiescence_static : forall s s',
+      ran_to_quiescence s s' -> List.length (ns_trans s') = List.length (ns_trans s) -> quiescent s'.
+  Proof. intros s s' (n & N1 & N2 & N3) E. eapply disabled_below_all; [|exact N3]. lia. Qed.
+
+  (* PetriNetLogic.fire_event returns True only after a complete evaluation, and False only
+     without having touched anything *)
+  Theorem logic_fire_event_true : forall f ev s s',
+      logic_fire_event tasks env f ev s = Ok (true, s') -> ran_to_quiescence s s'.
+  Proof.
+    intros f ev s s' H. destruct f as [|f]; [discriminate H|].
+    rewrite logic_fire_event_S in H. unfold lfe_body in H. unfold nbind at 1, nget in H.
+    destruct (event_place s ev) as [[p|]| | |]; try discriminate H.
+    - destruct (has_place s p); [|discriminate H].
+      apply nbind_inv in H. destruct H as (u1 & s1 & H1 & H).
+      apply nbind_inv in H. destruct H as (u2 & s2 & H2 & H).
+      inversion H; subst. inversion H1; subst.
+      destruct (evaluate_quiescent _ _ _ _ H2) as (n & N1 & N2 & N3).
+      exists n. split; [|split; assumption].
+      exact N1.
+  Qed.
+
+  Theorem logic_fire_event_false : forall f ev s s',
+      logic_fire_event tasks env f ev s = Ok (false, s') -> s' = s.
+  Proof.
+    intros f ev s s' H. destruct f as [|f]; [discriminate H|].
+    rewrite logic_fire_event_S in H. unfold lfe_body in H. unfold nbind at 1, nget in H.
+    destruct (event_place s ev) as [[p|]| | |]; try discriminate H.
+    - destruct (has_place s p).
+      + apply nbind_inv in H. destruct H as (u1 & s1 & H1 & H).
+        apply nbind_inv in H. destruct H as (u2 & s2 & H2 & H). discriminate H.
+      + inversion H; reflexivity.
+    - inversion H; reflexivity.
+  Qed.
+
+  (* Scheduler.fire_event: an accepted event (True) means the net ran to quiescence; False
+     means the net is exactly as before (only the awaited list may have been permuted) *)
+  Theorem sched_fire_event_true : forall f ev s s',
+      sched_fire_event tasks env f ev s = Ok (true, s') -> ran_to_quiescence s s'.
+  Proof.
+    intros f ev s s' H. destruct f as [|f]; [discriminate H|].
+    rewrite sched_fire_event_S in H.
+    destruct (existsb (event_eqb ev) (ns_awaited s)); [|discriminate H].
+    destruct (remove_first (event_eqb ev) (ns_awaited s)) as [l|]; [|discriminate H].
+    destruct (logic_fire_event tasks env f ev (s <| ns_awaited := l |>)) as [[[|] s1]| | |] eqn:E;
+      try discriminate H.
+    inversion H; subst. apply logic_fire_event_true in E. exact E.
+  Qed.
+
+  Theorem sched_fire_event_false : forall f ev s s',
+      sched_fire_event tasks env f ev s = Ok (false, s') ->
+      exists l, s' = s <| ns_awaited := l |>.
+  Proof.
+    intros f ev s s' H. destruct f as [|f]; [discriminate H|].
+    rewrite sched_fire_event_S in H.
+    destruct (existsb (event_eqb ev) (ns_awaited s)).
+    - destruct (remove_first (event_eqb ev) (ns_awaited s)) as [l|]; [|discriminate H].
+      destruct (logic_fire_event tasks env f ev (s <| ns_awaited := l |>)) as [[[|] s1]| | |] eqn:E;
+        try discriminate H.
+      inversion H; subst. apply logic_fire_event_false in E. subst s1.
+      eexists. destruct s; reflexivity.
+    - inversion H; subst. exists (ns_awaited s'). destruct s'; reflexivity.
+  Qed.
+
+  Corollary sched_fire_event_false_same_net : forall f ev s s',
+      sched_fire_event tasks env f ev s = Ok (false, s') -> same_net s s'.
+  Proof.
+    intros f ev s s' H. destruct (sched_fire_event_false _ _ _ _ H) as (l & ->). repeat split.
+  Qed.
+
+  Lemma pres_sched_fire_event : forall f ev s b s',
+      sched_fire_event tasks env f ev s = Ok (b, s') -> le_ns s s'.
+  Proof.
+    intros f ev s b s' H.
+    eapply (proj1 (proj2 (proj2 (proj2 (proj2 (proj2 (proj2 (proj2 (proj2 (pres_block tasks env f))))))))));
+      eauto.
+  Qed.
+
+  (* ---- the public API ---- *)
+
+  Lemma ran_to_quiescence_cleared : forall s s',
+      ran_to_quiescence (s <| ns_log := [] |>) s' -> ran_to_quiescence s s'.
+  Proof. intros s s' H. exact H. Qed.
+
+  (* whatever the call: either the net ran to quiescence or the net is untouched *)
+  Theorem api_call_quiescent_or_same : forall f s c b s',
+      net_api_call tasks env f s c = Ok (b, s') ->
+      ran_to_quiescence s s' \/ same_net s s'.
+  Proof.
+    intros f s c b s' H. unfold net_api_call in H. cbv zeta in H.
+    destruct c as [|id| |k l|o|o].
+    - change (ns_awaited (s <| ns_log := [] |>)) with (ns_awaited s) in H.
+      destruct (existsb (event_eqb EvStart) (ns_awaited s)).
+      + destruct (sched_fire_event tasks env f EvStart (s <| ns_log := [] |> <| ns_running := true |>))
+          as [[[|] s1]| | |] eqn:E; try discriminate H; inversion H; subst.
+        * left. apply sched_fire_event_true in E. exact E.
+        * right. apply sched_fire_event_false_same_net in E. exact E.
+      + inversion H; subst. right. repeat split.
+    - destruct b.
+      + left. apply sched_fire_event_true in H. exact H.
+      + right. apply sched_fire_event_false_same_net in H. exact H.
+    - destruct b.
+      + left. apply sched_fire_event_true in H. exact H.
+      + right. apply sched_fire_event_false_same_net in H. exact H.
+    - right. change (ns_ls (s <| ns_log := [] |>)) with (ns_ls s) in H.
+      destruct (existsb _ (ns_ls s)); inversion H; subst; repeat split.
+    - right. inversion H; subst. repeat split.
+    - right. change (ns_obs (s <| ns_log := [] |>)) with (ns_obs s) in H.
+      destruct (remove_first (Nat.eqb o) (ns_obs s)); inversion H; subst. repeat split.
+  Qed.
+
+  (* an accepted completion (fire_event returned True): the net ran to quiescence *)
+  Theorem api_finish_accepted : forall f s id s',
+      net_api_call tasks env f s (AFinish id) = Ok (true, s') -> ran_to_quiescence s s'.
+  Proof. intros f s id s' H. unfold net_api_call in H. apply sched_fire_event_true in H. exact H. Qed.
+
+  Theorem api_finish_accepted_static : forall f s id s',
+      net_api_call tasks env f s (AFinish id) = Ok (true, s') ->
+      List.length (ns_trans s') = List.length (ns_trans s) ->
+      quiescent s'.
+  Proof. intros f s id s' H E. eapply ran_to_quiescence_static; [eapply api_finish_accepted; eauto|exact E]. Qed.
+
+  (* start(): when the start event is awaited and the start place exists, the net ran to
+     quiescence when start() returns *)
+  Theorem api_start_accepted : forall f s b s',
+      existsb (event_eqb EvStart) (ns_awaited s) = true ->
+      has_place s (ns_start_place s) = true ->
+      net_api_call tasks env f s AStart = Ok (b, s') ->
+      b = true /\ ran_to_quiescence s s'.
+  Proof.
+    intros f s b s' Haw Hp H. unfold net_api_call in H. cbv zeta in H.
+    change (ns_awaited (s <| ns_log := [] |>)) with (ns_awaited s) in H. rewrite Haw in H.
+    destruct (sched_fire_event tasks env f EvStart (s <| ns_log := [] |> <| ns_running := true |>))
+      as [[r s1]| | |] eqn:E; try discriminate H. inversion H; subst. split; [reflexivity|].
+    destruct r; [apply sched_fire_event_true in E; exact E|].
+    exfalso. destruct f as [|f]; [discriminate E|].
+    rewrite sched_fire_event_S in E.
+    change (ns_awaited (s <| ns_log := [] |> <| ns_running := true |>)) with (ns_awaited s) in E.
+    rewrite Haw in E.
+    destruct (remove_first (event_eqb EvStart) (ns_awaited s)) as [l|]; [|discriminate E].
+    destruct f as [|f]; [discriminate E|].
+    rewrite logic_fire_event_S in E. unfold lfe_body in E. unfold nbind at 1, nget in E.
+    cbn [event_place] in E.
+    change (ns_start_place (s <| ns_log := [] |> <| ns_running := true |> <| ns_awaited := l |>))
+      with (ns_start_place s) in E.
+    change (has_place (s <| ns_log := [] |> <| ns_running := true |> <| ns_awaited := l |>) (ns_start_place s))
+      with (has_place s (ns_start_place s)) in E.
+    rewrite Hp in E.
+    match type of E with
+    | match ?m with _ => _ end = _ => destruct m as [[[|] s2]| | |] eqn:E2; try discriminate E
+    end.
+    apply nbind_inv in E2. destruct E2 as (u1 & s3 & _ & E2).
+    apply nbind_inv in E2. destruct E2 as (u2 & s4 & _ & E2). discriminate E2.
+  Qed.
+
+  Theorem api_start_accepted_static : forall f s b s',
+      existsb (event_eqb EvStart) (ns_awaited s) = true ->
+      has_place s (ns_start_place s) = true ->
+      net_api_call tasks env f s AStart = Ok (b, s') ->
+      List.length (ns_trans s') = List.length (ns_trans s) ->
+      quiescent s'.
+  Proof.
+    intros f s b s' H1 H2 H E. eapply ran_to_quiescence_static; [|exact E].
+    eapply api_start_accepted; eauto.
+  Qed.
+
+  (* a rejected call (return value False) leaves the net untouched, so nothing becomes
+     enabled by it *)
+  Theorem api_rejected_same_net : forall f s c s',
+      net_api_call tasks env f s c = Ok (false, s') -> same_net s s'.
+  Proof.
+    intros f s c s' H. unfold net_api_call in H. cbv zeta in H.
+    destruct c as [|id| |k l|o|o].
+    - change (ns_awaited (s <| ns_log := [] |>)) with (ns_awaited s) in H.
+      destruct (existsb (event_eqb EvStart) (ns_awaited s)).
+      + destruct (sched_fire_event tasks env f EvStart (s <| ns_log := [] |> <| ns_running := true |>))
+          as [[r s1]| | |]; discriminate H.
+      + discriminate H.
+    - apply sched_fire_event_false_same_net in H. exact H.
+    - apply sched_fire_event_false_same_net in H. exact H.
+    - change (ns_ls (s <| ns_log := [] |>)) with (ns_ls s) in H.
+      destruct (existsb _ (ns_ls s)); inversion H; subst; repeat split.
+    - discriminate H.
+    - change (ns_obs (s <| ns_log := [] |>)) with (ns_obs s) in H.
+      destruct (remove_first (Nat.eqb o) (ns_obs s)); discriminate H.
+  Qed.
+
+  Theorem api_rejected_quiescent : forall f s c s',
+      net_api_call tasks env f s c = Ok (false, s') -> quiescent s -> quiescent s'.
+  Proof. intros f s c s' H. apply same_net_quiescent. eapply api_rejected_same_net; eauto. Qed.
+
+  (* no API call on a net that does not grow leaves an enabled transition behind: whenever
+     control is back at the caller, nothing is left to do without a further event *)
+  Theorem api_call_keeps_quiescent : forall f s c b s',
+      net_api_call tasks env f s c = Ok (b, s') ->
+      List.length (ns_trans s') = List.length (ns_trans s) ->
+      quiescent s -> quiescent s'.
+  Proof.
+    intros f s c b s' H E Hq. destruct (api_call_quiescent_or_same _ _ _ _ _ H) as [Hr|Hs].
+    - eapply ran_to_quiescence_static; eauto.
+    - eapply same_net_quiescent; eauto.
+  Qed.
+
+  (* with run-time generation: every transition that existed before the call is disabled
+     after it (given none was enabled before) *)
+  Theorem api_call_old_transitions_disabled : forall f s c b s',
+      net_api_call tasks env f s c = Ok (b, s') ->
+      quiescent s ->
+      disabled_below (List.length (ns_trans s)) s'.
+  Proof.
+    intros f s c b s' H Hq. destruct (api_call_quiescent_or_same _ _ _ _ _ H) as [(n & N1 & N2 & N3)|Hs].
+    - eapply disabled_below_le; eauto.
+    - eapply same_net_disabled_below; [exact Hs|]. apply quiescent_disabled_below. exact Hq.
+  Qed.
+
+  Theorem api_call_le_ns : forall f s c b s',
+      net_api_call tasks env f s c = Ok (b, s') -> le_ns s s'.
+  Proof.
+    intros f s c b s' H. unfold net_api_call in H. cbv zeta in H.
+    destruct c as [|id| |k l|o|o].
+    - change (ns_awaited (s <| ns_log := [] |>)) with (ns_awaited s) in H.
+      destruct (existsb (event_eqb EvStart) (ns_awaited s)).
+      + destruct (sched_fire_event tasks env f EvStart (s <| ns_log := [] |> <| ns_running := true |>))
+          as [[r s1]| | |] eqn:E; try discriminate H. inversion H; subst.
+        apply pres_sched_fire_event in E. exact E.
+      + inversion H; subst. le_ns_solve.
+    - apply pres_sched_fire_event in H. exact H.
+    - apply pres_sched_fire_event in H. exact H.
+    - change (ns_ls (s <| ns_log := [] |>)) with (ns_ls s) in H.
+      destruct (existsb _ (ns_ls s)); inversion H; subst; le_ns_solve.
+    - inversion H; subst. le_ns_solve.
+    - change (ns_obs (s <| ns_log := [] |>)) with (ns_obs s) in H.
+      destruct (remove_first (Nat.eqb o) (ns_obs s)); inversion H; subst. le_ns_solve.
+  Qed.
+
+  (* ---- any sequence of API calls ---- *)
+  Inductive api_reach (f : nat) : NS -> NS -> Prop :=
+  | reach_refl : forall s, api_reach f s s
+  | reach_step : forall s s1 c b s2,
+      api_reach f s s1 -> net_api_call tasks env f s1 c = Ok (b, s2) -> api_reach f s s2.
+
+  Lemma api_reach_le_ns : forall f s s', api_reach f s s' -> le_ns s s'.
+  Proof.
+    intros f s s' H. induction H as [s|s s1 c b s2 _ IH H].
+    - apply le_ns_refl.
+    - eapply le_ns_trans; [exact IH|]. eapply api_call_le_ns; eauto.
+  Qed.
+
+  (* static nets (no parallel loop instantiated): quiescence is an invariant of the states in
+     which control is with the caller *)
+  Theorem api_reach_quiescent : forall f s s',
+      api_reach f s s' ->
+      List.length (ns_trans s') = List.length (ns_trans s) ->
+      quiescent s -> quiescent s'.
+  Proof.
+    intros f s s' H. induction H as [s|s s1 c b s2 H1 IH H]; intros E Hq; [exact Hq|].
+    pose proof (api_reach_le_ns H1) as (L1 & _).
+    pose proof (api_call_le_ns _ _ _ _ _ H) as (L2 & _).
+    eapply api_call_keeps_quiescent; [exact H|lia|]. apply IH; [lia|exact Hq].
+  Qed.
+
+End Quiescence.
